@@ -518,16 +518,21 @@ typedef struct {
   ares_server_t *server; /* optional */
 } ares_requeue_t;
 
+/* prev_server is the server the attempt that just ended was sent to (may be
+ * NULL), it is only needed if the query can't be parked and has to be ended */
 static ares_status_t ares_append_requeue(ares_array_t **requeue,
                                          ares_query_t *query,
-                                         ares_server_t *server)
+                                         ares_server_t *server,
+                                         ares_server_t *prev_server)
 {
   ares_requeue_t entry;
+  ares_status_t  status;
 
   if (*requeue == NULL) {
     *requeue = ares_array_create(sizeof(ares_requeue_t), NULL);
     if (*requeue == NULL) {
-      return ARES_ENOMEM;
+      status = ARES_ENOMEM;
+      goto fail;
     }
   }
 
@@ -535,7 +540,18 @@ static ares_status_t ares_append_requeue(ares_array_t **requeue,
 
   entry.qid    = query->qid;
   entry.server = server;
-  return ares_array_insertdata_last(*requeue, &entry);
+  status       = ares_array_insertdata_last(*requeue, &entry);
+  if (status != ARES_SUCCESS) {
+    goto fail;
+  }
+
+  return ARES_SUCCESS;
+
+fail:
+  /* The query can't be parked for a retry.  It must not be left behind without
+   * a connection and without a timeout, nothing would ever complete it. */
+  end_query(query->channel, prev_server, query, status, NULL);
+  return status;
 }
 
 static ares_status_t read_answers(ares_conn_t *conn, const ares_timeval_t *now)
@@ -829,7 +845,7 @@ static ares_status_t process_answer(ares_channel_t      *channel,
     }
 
     /* Requeue to same server */
-    status = ares_append_requeue(requeue, query, server);
+    status = ares_append_requeue(requeue, query, server, server);
     goto cleanup;
   }
 
@@ -841,7 +857,7 @@ static ares_status_t process_answer(ares_channel_t      *channel,
       !(conn->flags & ARES_CONN_FLAG_TCP) &&
       !(channel->flags & ARES_FLAG_IGNTC)) {
     query->using_tcp = ARES_TRUE;
-    status = ares_append_requeue(requeue, query, NULL);
+    status = ares_append_requeue(requeue, query, NULL, server);
     /* Status will reflect success except on memory error, which is good since
      * requeuing to TCP is ok */
     goto cleanup;
@@ -943,7 +959,7 @@ ares_status_t ares_requeue_query(ares_query_t *query, const ares_timeval_t *now,
 
   if (query->try_count < max_tries && !query->no_retries) {
     if (requeue != NULL) {
-      return ares_append_requeue(requeue, query, NULL);
+      return ares_append_requeue(requeue, query, NULL, server);
     }
     return ares_send_query(NULL, query, now);
   }
